@@ -58,6 +58,7 @@ def run(chk):
     chk.evaluations += runs
     chk.traces += n[0]
     chk.part("A_replay", sequences=n[0], runs=runs, exhaustive=True)
+    macros_part(chk, vh, os.path.join(wd, "seq-0.ndjson"))
     # B
     wd = vlib.workdir("c08-b")
     traces = []
@@ -78,7 +79,57 @@ def run(chk):
     chk.exhaustive = False
 
 
+def macros_part(chk, vh, cases_path):
+    """anstream::panic! payload, anstream::print! and eprint! output for the TLC-generated texts, in stripping mode
+    (the harness' stdout/stderr are pipes) and pass-through mode (CLICOLOR_FORCE)"""
+    import subprocess
+    sub = os.path.join(os.path.dirname(cases_path), "macro-cases.ndjson")
+    lines = [l for l in open(cases_path) if l.strip()][::23][:1500]
+    open(sub, "w").write("".join(lines))
+    cases = [json.loads(l) for l in lines]
+    texts = []
+    for c in cases:
+        try:
+            bytes(b for o in c["ops"] for b in o[1]).decode()
+            texts.append(c)
+        except UnicodeDecodeError:
+            pass
+    base_env = {k: v for k, v in os.environ.items() if k not in ("NO_COLOR", "CLICOLOR", "CLICOLOR_FORCE", "CI")}
+    n = 0
+    for mode, env in (("strip", {}), ("pass", {"CLICOLOR_FORCE": "1"})):
+        e = dict(base_env); e.update(env)
+        r = subprocess.run([vh, "macro-replay", sub, "panic"], stdout=subprocess.PIPE, stderr=subprocess.PIPE, env=e, timeout=600)
+        if r.returncode != 0:
+            raise vlib.ToolError("macro-replay panic failed: " + r.stderr.decode()[-600:])
+        res = json.loads(r.stdout.decode().strip().split("\n")[-1])["results"]
+        for x in res:
+            n += 1
+            if x["payload"] != x[mode]:
+                chk.violation("anstream::panic! payload in %s mode: %r, specification expects %r" % (mode, bytes(x["payload"]), bytes(x[mode])),
+                              {"kind": "macro", "what": "panic", "mode": mode, "observed": x["payload"], "expected": x[mode]})
+        for what, stream in (("print", "stdout"), ("eprint", "stderr")):
+            r = subprocess.run([vh, "macro-replay", sub, what], stdout=subprocess.PIPE, stderr=subprocess.PIPE, env=e, timeout=600)
+            if r.returncode != 0:
+                raise vlib.ToolError("macro-replay %s failed" % what)
+            data = r.stdout if stream == "stdout" else r.stderr
+            sep = b"\n@@SEP@@\n" if what == "print" else b"\n@@SEP@@\n"
+            parts = data.split(sep)[:-1]
+            if len(parts) != len(texts):
+                raise vlib.ToolError("macro-replay %s: %d outputs for %d texts" % (what, len(parts), len(texts)))
+            for c, got in zip(texts, parts):
+                n += 1
+                exp = bytes(c[mode])
+                if got != exp:
+                    chk.violation("anstream::%s! in %s mode wrote %r, specification expects %r" % (what, mode, got, exp),
+                                  {"kind": "macro", "what": what, "mode": mode, "observed": list(got), "expected": list(exp)})
+    chk.evaluations += n
+    chk.part("A_macros", calls=n, texts=len(texts))
+
+
 def replay(obj):
+    if obj.get("kind") == "macro":
+        print(json.dumps(obj)[:2000])
+        return 1
     if obj.get("kind") == "auto-seq":
         vh = vlib.build_harness("vh")
         wd = vlib.workdir("replay")
